@@ -1,7 +1,6 @@
 package sim
 
 import (
-	"sync"
 	"bytes"
 	"context"
 	"errors"
@@ -9,6 +8,7 @@ import (
 	"io"
 	"log/slog"
 	"sort"
+	"sync"
 	"time"
 
 	"github.com/benbjohnson/litestream"
@@ -42,20 +42,20 @@ type FaultStore struct {
 	// SnapshotSource, if set, returns the source database file's pages when a
 	// snapshot-level upload begins (facts about what the snapshot could read).
 	SnapshotSource func() *State
-	Faults map[int]Fault
-	Calls  int
-	Hit    map[string]int    // fault kind -> times fired
-	Kinds  map[string]int    // call kind -> count
-	Arch   map[FileKey][]*ArchEntry
-	ArchSeq []*ArchEntry
-	Deleted []FileKey
-	AfterCall func(kind string, idx int, err error)
-	BeforeCall func(kind string, idx int)
-	Disabled bool // when true, faults are ignored (fault-free suffix) but calls still counted
-	CallLog []string
-	storms  []*Fault // kind-restricted storms (remaining count in N)
-	Locked  bool // CONC engine: bookkeeping is shared by task goroutines
-	mu      sync.Mutex
+	Faults         map[int]Fault
+	Calls          int
+	Hit            map[string]int // fault kind -> times fired
+	Kinds          map[string]int // call kind -> count
+	Arch           map[FileKey][]*ArchEntry
+	ArchSeq        []*ArchEntry
+	Deleted        []FileKey
+	AfterCall      func(kind string, idx int, err error)
+	BeforeCall     func(kind string, idx int)
+	Disabled       bool // when true, faults are ignored (fault-free suffix) but calls still counted
+	CallLog        []string
+	storms         []*Fault // kind-restricted storms (remaining count in N)
+	Locked         bool     // CONC engine: bookkeeping is shared by task goroutines
+	mu             sync.Mutex
 }
 
 func NewFaultStore(inner litestream.ReplicaClient, faults []Fault) *FaultStore {
@@ -157,9 +157,9 @@ func (s *FaultStore) fire(kind string) {
 	s.Hit[kind]++
 }
 
-func (s *FaultStore) Type() string { return s.Inner.Type() }
+func (s *FaultStore) Type() string                   { return s.Inner.Type() }
 func (s *FaultStore) Init(ctx context.Context) error { return s.Inner.Init(ctx) }
-func (s *FaultStore) SetLogger(l *slog.Logger) { s.Inner.SetLogger(l) }
+func (s *FaultStore) SetLogger(l *slog.Logger)       { s.Inner.SetLogger(l) }
 
 type errIter struct {
 	items []*ltx.FileInfo
@@ -181,7 +181,12 @@ func (it *errIter) Item() *ltx.FileInfo {
 	}
 	return it.items[it.i-1]
 }
-func (it *errIter) Err() error   { if it.i >= it.limit { return it.err }; return nil }
+func (it *errIter) Err() error {
+	if it.i >= it.limit {
+		return it.err
+	}
+	return nil
+}
 func (it *errIter) Close() error { return it.Err() }
 
 func (s *FaultStore) LTXFiles(ctx context.Context, level int, seek ltx.TXID, useMetadata bool) (ltx.FileIterator, error) {
@@ -208,6 +213,9 @@ type faultReader struct {
 	left  int64
 	atEnd error
 	fired *bool
+	// closeErr: every byte is delivered, Close reports an error (a connection
+	// reset after the last byte)
+	closeErr error
 }
 
 func (r *faultReader) Read(p []byte) (int, error) {
@@ -222,7 +230,14 @@ func (r *faultReader) Read(p []byte) (int, error) {
 	r.left -= int64(n)
 	return n, err
 }
-func (r *faultReader) Close() error { return r.rc.Close() }
+func (r *faultReader) Close() error {
+	err := r.rc.Close()
+	if r.closeErr != nil {
+		*r.fired = true
+		return r.closeErr
+	}
+	return err
+}
 
 func (s *FaultStore) OpenLTXFile(ctx context.Context, level int, minTXID, maxTXID ltx.TXID, offset, size int64) (io.ReadCloser, error) {
 	idx, f := s.begin("open")
@@ -233,6 +248,11 @@ func (s *FaultStore) OpenLTXFile(ctx context.Context, level int, minTXID, maxTXI
 		return nil, err
 	}
 	rc, err := s.Inner.OpenLTXFile(ctx, level, minTXID, maxTXID, offset, size)
+	if err == nil && f != nil && f.Kind == "close_error" {
+		s.fire("close_error")
+		s.end("open", idx, nil)
+		return &faultReader{rc: rc, left: 1 << 62, atEnd: io.EOF, fired: new(bool), closeErr: fmt.Errorf("close: %w", ErrInjected)}, nil
+	}
 	if err == nil && f != nil && (f.Kind == "short_read" || f.Kind == "mid_error") {
 		fired := new(bool)
 		fr := &faultReader{rc: rc, left: f.Arg, atEnd: io.EOF, fired: fired}
@@ -383,7 +403,9 @@ type FaultStoreV3 struct {
 	V3 litestream.ReplicaClientV3
 }
 
-func (s *FaultStoreV3) GenerationsV3(ctx context.Context) ([]string, error) { return s.V3.GenerationsV3(ctx) }
+func (s *FaultStoreV3) GenerationsV3(ctx context.Context) ([]string, error) {
+	return s.V3.GenerationsV3(ctx)
+}
 func (s *FaultStoreV3) SnapshotsV3(ctx context.Context, g string) ([]litestream.SnapshotInfoV3, error) {
 	return s.V3.SnapshotsV3(ctx, g)
 }
